@@ -128,6 +128,10 @@ Definition total_seq_len (rows : list (list nat)) : nat := list_max (map seqlens
 (* Dimensions as the harness encodes them: a static size n >= 0 is n; a NAMED symbolic dim is a negative number
    <= -2, one per name; an UNNAMED dim (SymbolicDim(None)) is -1 -- onnx_ir compares all unnamed dims equal. *)
 Definition is_static (d : Z) : bool := (0 <=? d)%Z.
+(* With fix C19_09 (_fusion_utils.check_shape never equates two unknown dims) the harness gives every OCCURRENCE of an unnamed
+   dim its own code <= -1000 instead of the shared -1: Z.eqb then never identifies two of them, which is the repaired
+   comparison (the variant lives in the encoding; the harness probes which one the implementation is). *)
+Definition is_fresh_unnamed (d : Z) : bool := (d <=? -1000)%Z.
 
 Definition zprod (l : list Z) : Z := fold_right Z.mul 1%Z l.
 (* run-time sizes are a function of the dim codes; static dims denote themselves *)
